@@ -16,8 +16,117 @@ pub fn cfg_for(t: Tier, exact: bool) -> GenCfg {
     cfg
 }
 
+/// A training loop through `Model` with a USER-DEFINED optimizer that steps only some parameters and leaves the
+/// others (and their gradients) alone, while the caller keeps handles on inputs, outputs, old parameter arrays and
+/// fetched gradients: none of them may ever change.
+#[derive(Clone, Debug, serde::Serialize, serde::Deserialize)]
+pub struct LoopCase8 {
+    pub input: usize,
+    pub hidden: usize,
+    pub output: usize,
+    pub batch: usize,
+    pub iterations: usize,
+    /// parameters with index % 2 == skip are left untouched by the optimizer
+    pub skip: usize,
+    pub vseed: u64,
+}
+
+struct PartialStep {
+    lr: corgi::numbers::Float,
+    skip: usize,
+}
+impl corgi::optimizer::Optimizer for PartialStep {
+    fn update(&self, parameters: Vec<&mut corgi::array::Array>) {
+        for (i, p) in parameters.into_iter().enumerate() {
+            if i % 2 == self.skip {
+                continue;
+            }
+            if let Some(g) = p.replace_gradient() {
+                let vals: Vec<corgi::numbers::Float> = p.values().iter().zip(g.values()).map(|(x, g)| x - self.lr * g).collect();
+                *p = corgi::array::Array::from((p.dimensions().to_vec(), vals)).tracked();
+            }
+        }
+    }
+}
+
+impl CaseKind for LoopCase8 {
+    const KIND: &'static str = "c08-loop";
+    fn size(&self) -> usize {
+        self.iterations * 10 + self.batch + self.hidden
+    }
+    fn run(&self) -> Outcome {
+        use crate::exec::*;
+        use crate::layers::*;
+        use crate::vals::*;
+        use corgi::array::Array;
+        use refmodel::ops::Act;
+        let mut k = KeyHasher::new("c08-loop");
+        k.u(self.input as u64).u(self.hidden as u64).u(self.output as u64).u(self.batch as u64).u(self.iterations as u64).u(self.skip as u64);
+        let classes = vec!["kind:training-loop-with-user-optimizer".to_string()];
+        let res = guarded(|| -> Result<usize, String> {
+            let specs = vec![LayerSpec::Dense { input: self.input, output: self.hidden, act: Act::Sigmoid }, LayerSpec::Dense { input: self.hidden, output: self.output, act: Act::None }];
+            let acts = acts_for(&specs);
+            let mut layers = build_layers(&specs, &acts, self.vseed, VKind::Small, None);
+            // handles on the parameter arrays (same arrays: gradients are visible through them)
+            let mut held: Vec<(String, Array, Vec<usize>, Vec<u64>)> = vec![];
+            let snap = |a: &Array| (a.dimensions().to_vec(), a.values().iter().map(|v| (*v as f64).to_bits()).collect::<Vec<u64>>());
+            let pcs: Vec<Array> = layers.iter_mut().flat_map(|l| l.parameters().into_iter().map(|p| p.clone()).collect::<Vec<_>>()).collect();
+            for (i, p) in pcs.iter().enumerate() {
+                let (d, b) = snap(p);
+                held.push((format!("initial parameter {}", i), p.clone(), d, b));
+            }
+            let opt = PartialStep { lr: 0.25, skip: self.skip % 2 };
+            let cost = corgi::cost::mse();
+            let refs: Vec<&mut dyn corgi::layer::Layer> = layers.iter_mut().map(|b| &mut **b as &mut dyn corgi::layer::Layer).collect();
+            let mut model = corgi::model::Model::new(refs, &opt, &cost);
+            let xd = if self.batch == 0 { vec![self.input] } else { vec![self.batch, self.input] };
+            let mut compared = 0;
+            let check = |held: &Vec<(String, Array, Vec<usize>, Vec<u64>)>, when: &str| -> Result<usize, String> {
+                for (name, a, d, b) in held {
+                    let (nd, nb) = (a.dimensions().to_vec(), a.values().iter().map(|v| (*v as f64).to_bits()).collect::<Vec<u64>>());
+                    if &nd != d || &nb != b {
+                        return Err(format!("MUTATED: {} changed {}: values {:?} -> {:?}", name, when, b.iter().take(6).map(|x| f64::from_bits(*x)).collect::<Vec<_>>(), nb.iter().take(6).map(|x| f64::from_bits(*x)).collect::<Vec<_>>()));
+                    }
+                }
+                Ok(held.len())
+            };
+            for it in 0..self.iterations {
+                let x = arr(&xd, &gen_vals(self.vseed + it as u64, xd.iter().product(), VKind::Small));
+                let out = model.forward(x.clone());
+                let t = arr(out.dimensions(), &gen_vals(self.vseed ^ (it as u64 + 31), out.values().len(), VKind::Small));
+                let (d, b) = snap(&x);
+                held.push((format!("input of iteration {}", it), x, d, b));
+                let (d, b) = snap(&out);
+                held.push((format!("output of iteration {}", it), out, d, b));
+                compared += check(&held, &format!("during the forward pass of iteration {}", it))?;
+                model.backward(t.clone());
+                let (d, b) = snap(&t);
+                held.push((format!("target of iteration {}", it), t, d, b));
+                // fetch the gradients the pass left on the (still current) initial parameter arrays
+                for (i, p) in pcs.iter().enumerate() {
+                    if let Some(g) = p.gradient().as_ref() {
+                        let (d, b) = snap(g);
+                        held.push((format!("gradient of parameter {} fetched in iteration {}", i, it), g.clone(), d, b));
+                    }
+                }
+                compared += check(&held, &format!("during the backward pass of iteration {}", it))?;
+                model.update();
+                compared += check(&held, &format!("during Model::update of iteration {}", it))?;
+            }
+            Ok(compared)
+        });
+        match res {
+            Ok(Ok(n)) => Outcome::pass(n > 0 && self.iterations >= 2, k.finish(), classes),
+            Ok(Err(m)) if m.starts_with("MUTATED") => Outcome::fail("mutated", "mutated:training-loop".into(), format!("{} ({:?})", m, self), k.finish(), classes),
+            Ok(Err(m)) => Outcome::internal(m),
+            Err(p) => Outcome::discard(&format!("the loop panicked: {}", p)),
+        }
+    }
+}
+
 pub fn dispatch(kind: &str, v: &Value) -> Option<Outcome> {
     match kind {
+        "c08-loop" => serde_json::from_value::<LoopCase8>(v.clone()).ok().map(|c| c.run()),
         "history" => serde_json::from_value::<HistCase>(v.clone()).ok().map(|c| c.run()),
         _ => None,
     }
@@ -31,6 +140,9 @@ pub fn run(ctx: &Ctx) -> i32 {
         let cfg = cfg_for(t, exact);
         st.merge(ctx.run_prop(name, total / 2, move || recipe_strategy(len), move |r| Some(HistCase { oracle: "c08".into(), hist: elaborate(&cfg, r) })));
     }
+    st.merge(ctx.run_indexed("training-loops-with-user-optimizer", 3 * 3 * 4 * 2, None, |i| {
+        Some(LoopCase8 { input: 1 + (i % 3) as usize, hidden: 2 + ((i / 3) % 3) as usize, output: 1 + (i % 2) as usize, batch: ((i / 9) % 4) as usize, iterations: 3, skip: (i / 36) as usize, vseed: i * 77 + ctx.seed })
+    }));
     if ctx.tier == Tier::Thorough {
         st.merge(ctx.run_fuzz(20000, ctx.threads, &dispatch));
     }
